@@ -77,6 +77,32 @@ deriving DecidableEq, Repr
 /-- SendMsg: `if payloadLen > limit { RESOURCE_EXHAUSTED }` before anything is handed to the transport. -/
 def sendOk (payloadLen : Nat) (limit : Int) : Bool := !((payloadLen : Int) > limit)
 
+/-- What the application hands to SendMsg: an ordinary message of `n` encoded bytes, or a
+    `*grpc.PreparedMsg` (preloader.go) that `Encode` filled on this stream beforehand. -/
+structure Prepared where
+  payload : Nat        -- len(p.payload): the post-compression bytes stored by Encode
+  plain : Nat          -- len(p.encodedData)
+deriving DecidableEq, Repr
+
+inductive Msg
+  | plain (n : Nat)
+  | prepared (p : Prepared)
+deriving DecidableEq, Repr
+
+/-- `PreparedMsg.Encode(stream, m)`: encode with the stream's codec, compress with the stream's compressor. -/
+def encodePrepared (comp : Option Comp) (n : Nat) : Prepared := ⟨wireLen comp n, n⟩
+
+/-- `prepareMsg`: a PreparedMsg short-circuits encoding/compression and yields its stored payload. -/
+def payloadLenOf (comp : Option Comp) : Msg → Nat
+  | .plain n => wireLen comp n
+  | .prepared p => p.payload
+
+/-- `SendMsg` (clientStream / addrConnStream / serverStream): `prepareMsg`, then the length check on
+    whatever it returned, then the transport write. `none` = RESOURCE_EXHAUSTED and nothing written;
+    `some k` = k payload bytes handed to the transport. -/
+def sendMsg (comp : Option Comp) (limit : Int) (m : Msg) : Option Nat :=
+  if sendOk (payloadLenOf comp m) limit then some (payloadLenOf comp m) else none
+
 /-- Which check rejected a message. -/
 inductive Why | none | send | recvWire | recvPlain
 deriving DecidableEq, Repr
